@@ -14,6 +14,28 @@ CONSTS = ["None", "True", "False", "0", "1", "-1", "2**53-1", "2**53", "-2**53",
           "((), ((1,),), None)", "(float('nan'), -0.0)", "('\\udc00', b'y', ...)", "(10**30, True, 1.0, 1)"]
 
 
+def corruptions(doc):
+    """documents that differ from a valid one in one place (some still valid, most not)"""
+    out = []
+    d = dict(doc); d.pop("filename", None); out.append(d)
+    d = dict(doc); d["stacksize"] = "three"; out.append(d)
+    d = dict(doc); d["blocks"] = [{"name": "NOP"}]; out.append(d)
+    d = dict(doc); d["type"] = {"type": "BOGUS"}; out.append(d)
+    d = dict(doc); d["type"] = {"type": "GENERATOR", "docstring": {"string": "'x'"}}; out.append(d)
+    d = dict(doc); d["freevars"] = [1]; out.append(d)
+    d = dict(doc); d["_additional_args"] = [{"constant": {"frozenset": [1, {"bytes": "eA=="}, [None, {"type": "ellipsis"}]]}}]; out.append(d)
+    d = dict(doc); d["_additional_args"] = [{"constant": {"float": "huge"}}]; out.append(d)
+    d = dict(doc); d["_additional_args"] = [{"target": 1}]; out.append(d)
+    d = dict(doc); d["_additional_line"] = {"line": "1"}; out.append(d)
+    if doc.get("blocks") and doc["blocks"][0]:
+        import copy
+        d = copy.deepcopy(doc); d["blocks"][0][0]["arg"] = {"target": "far"}; out.append(d)
+        d = copy.deepcopy(doc); d["blocks"][0][0]["line_number"] = None; out.append(d)
+        d = copy.deepcopy(doc); d["blocks"][0][0]["arg"] = 5; out.append(d)
+        d = copy.deepcopy(doc); del d["blocks"][0][0]["name"]; out.append(d)
+    return out
+
+
 def work(ctx):
     import code_data
     from code_data import CodeData, JSON_SCHEMA
@@ -86,6 +108,16 @@ def work(ctx):
                     ctx.case("ser_json (code_data_to_json %s)" % E.g_cd(d), J.t_json(cdoc), "to_json %s" % what, "to_json")
                     cl = J.canon_cd(loaded)
                     ctx.case("ser_res ser_cd (code_data_from_json %s)" % J.g_json(cl), tres(back, E.t_cd), "from_json %s" % what, "from_json")
+                    # the model's document validates against the schema regenerated from the source (Coq validator)
+                    ctx.case("ser_bool (validate 400 JSON_SCHEMA JSON_SCHEMA (code_data_to_json %s))" % E.g_cd(d), [1],
+                             "schema validity (Coq validator, regenerated schema) of %s" % what, "schema")
+                    # the Coq validator against the harness's own validator on corrupted documents
+                    if ncases % 4 == 0:
+                        import copy as _copy
+                        for ci, corrupt in enumerate(corruptions(_copy.deepcopy(doc))):
+                            want = jsontools.validate(JSON_SCHEMA, corrupt) is None
+                            ctx.case("ser_bool (validate 400 JSON_SCHEMA JSON_SCHEMA %s)" % J.g_json(J.canon_cd(corrupt)), [1 if want else 0],
+                                     "validator agreement on corruption %d of %s" % (ci, what), "schema-validator")
                     # the premises of the C07 theorems on this value, and their conclusions (evaluated inside Coq)
                     ctx.case("(let d := %s in ser_bool (wfj_cd d) ++ match code_data_from_json (code_data_to_json d) with "
                              "OK d' => ser_bool (cd_eqb d d') | Err _ => [2] end ++ ser_bool (json_plain (code_data_to_json d)))" % E.g_cd(d),
